@@ -65,6 +65,9 @@ EXTRA = {}
 TOL = 1e-9
 TOL_MODEL = 1e-8
 TOL_MM = 1e-15
+# the fast runner rounds individual terms of long sums to multiples of 2^-400 (Base/Field.v, fapx): model values
+# are meaningful down to ~1e-115 only; un-normalised blocks of primitive-normalised functions have natural scale 1
+FLOOR_MODEL = 1e-100
 
 BLOCK_CLASSES = ["overlap", "kinetic", "moment", "momentum", "angmom", "pointcharge", "eval", "evalderiv", "eri"]
 
@@ -564,11 +567,11 @@ def eval_block_case(model, case):
             st, bi = blk(shells)
             if st != "ok":
                 return {"kind": "rejected", "module": cls, "impl": bi}
-            d = close(_post(np.asarray(bi), post), mm, TOL_MODEL, 1e-300, "%s block impl-vs-model/%s" % (cls, what))
+            d = close(_post(np.asarray(bi), post), mm, TOL_MODEL, FLOOR_MODEL, "%s block impl-vs-model/%s" % (cls, what))
             if d:
                 d["module"] = cls
                 return d
-        d = close(expect(m0), m1, TOL_MM, 1e-300, cls + " block model-vs-model")
+        d = close(expect(m0), m1, TOL_MM, FLOOR_MODEL, cls + " block model-vs-model")
         if d:
             d["module"] = cls
             d["note"] = "the exact model itself does not obey the law"
@@ -672,7 +675,7 @@ def eval_block_case(model, case):
                 m2 = nested_to_np(model.call(_block_model_cmd(cls, with_shell(s2), aux)[0]))
                 m3 = nested_to_np(model.call(_block_model_cmd(cls, with_shell(ssum), aux)[0]))
                 stats["model:block " + cls] = 1
-                d = close(m0 + m2, m3, TOL_MM, max(float(np.max(np.abs(m0))), float(np.max(np.abs(m2))), 1e-300),
+                d = close(m0 + m2, m3, TOL_MM, max(float(np.max(np.abs(m0))), float(np.max(np.abs(m2))), FLOOR_MODEL),
                           cls + " block model additivity")
                 if d:
                     d["module"] = cls
